@@ -247,7 +247,7 @@ def damage_case(seed, idx, tier, rec):
             ncorr = 6 if tier == 'quick' else 40
             for _ in range(ncorr):
                 style = rng.choice(['flip', 'flip', 'random', 'tail',
-                                    'foreign'])
+                                    'foreign', 'nostatus'])
                 if style == 'flip' and size:
                     pos = rng.randrange(size)
                     bad = bytearray(data)
@@ -259,6 +259,13 @@ def damage_case(seed, idx, tier, rec):
                 elif style == 'tail':
                     bad = data + bytes(rng.randrange(256)
                                        for _ in range(rng.randint(1, 9)))
+                elif style == 'nostatus':
+                    # a readable environment that does not say DONE
+                    from valjean.cosette.task import TaskStatus
+                    bad = pickle.dumps(Env({name: rng.choice(
+                        [{'payload': 1}, 5, None, 'DONE', [3],
+                         {'status': None}, {'status': 'DONE'},
+                         {'status': TaskStatus.PENDING, 'result': 2}])}))
                 else:
                     bad = pickle.dumps(rng.choice(
                         [1, 'text', [1, 2], {'a': 1}, None, (1,), 2.5]))
@@ -267,8 +274,9 @@ def damage_case(seed, idx, tier, rec):
                 rec.count('corrupted_reads')
                 fault = 'corrupted-file-' + style
                 got = safe_read(root, names, rec, where, fault)
-                if got is not None and style in ('random', 'foreign'):
-                    if style == 'foreign' or name not in got:
+                if got is not None and style in ('random', 'foreign',
+                                                 'nostatus'):
+                    if style != 'random' or name not in got:
                         compare(got, exp_wo, names, rec, where, fault)
                 if got is not None:
                     rec.count('corrupted.' + style + (
